@@ -250,6 +250,7 @@ func explainGenErrors(errs []string, gen, genName string, cf *ContractFile) stri
 // Clause function generation
 
 type funcSite struct {
+	preferLocals bool // loop invariants: a local named `result` shadows the result keyword
 	extra   map[string]types.Type // names bound by name rather than by scope (interface contracts, call sites)
 	recvVar *types.Var
 	sig     *types.Signature
@@ -533,6 +534,15 @@ func collectParams(expr ast.Expr, site *funcSite, scope *types.Scope, pkgScope *
 				ptypes = append(ptypes, "int")
 				return true
 			case nm == "result" || (strings.HasPrefix(nm, "result") && len(nm) == 7 && nm[6] >= '0' && nm[6] <= '9'):
+				if scope != nil && site.preferLocals {
+					if _, obj := scope.LookupParent(nm, pos); obj != nil {
+						if v, ok := obj.(*types.Var); ok && v.Parent() != pkgScope && v.Parent() != types.Universe && !v.IsField() {
+							params = append(params, ClauseParam{Name: nm, Kind: "var", Pos: int(v.Pos())})
+							ptypes = append(ptypes, types.TypeString(v.Type(), g.qual))
+							return true
+						}
+					}
+				}
 				k := 0
 				if len(nm) == 7 {
 					k = int(nm[6] - '0')
@@ -742,6 +752,15 @@ func generateClauses(L *Loaded, root *packages.Package, cf *ContractFile) (strin
 			if err != nil {
 				return "", fmt.Errorf("verif_contracts.go:%d: %v", c.Line, err)
 			}
+			for _, tr := range c.Triggers {
+				// one function per pattern term; the result type is inferred through a generic sink
+				for k, item := range splitTop(tr.Src, ",") {
+					n++
+					nm := fmt.Sprintf("verif_cl_%d", n)
+					tr.modParsed = append(tr.modParsed, &modSpec{kind: "trigger", goName: nm, expr: strings.TrimSpace(item)})
+					fmt.Fprintf(&g.b, "// clause %s trigger %d (verif_contracts.go:%d)\nfunc %s(%s) bool {\n\tverifTriggerSink(%s)\n\treturn true\n}\n\n", fname, k, tr.Line, nm, c.LemmaParams, strings.TrimSpace(item))
+				}
+			}
 			for _, cl := range c.AllClauses() {
 				n++
 				cl.GoName = fmt.Sprintf("verif_cl_%d", n)
@@ -795,6 +814,11 @@ func generateClauses(L *Loaded, root *packages.Package, cf *ContractFile) (strin
 				scope = pkgScope.Innermost(pos)
 			}
 			useSite := site
+			if cl.Kind == "invariant" {
+				cp := *site
+				cp.preferLocals = true
+				useSite = &cp
+			}
 			if cl.Kind == "callsite" {
 				cp := *site
 				if ft := lookupTypeByShortName(root, cl.CallType); ft != nil {
